@@ -4,7 +4,7 @@
    proofs/SegmentLayoutProofs.v, proofs/Crc24Proofs.v, proofs/Crc32Proofs.v. *)
 From Coq Require Import ZArith NArith List Bool.
 From GCNP Require Import base.GoInt base.Bytes gen.Crc_gen model.Crc model.Segment spec.SpecSegment
-  proofs.Crc24Proofs proofs.Crc32Proofs proofs.SegmentProofs proofs.SegmentLayoutProofs.
+  proofs.Crc24Proofs proofs.Crc24SpecProofs proofs.Crc32Proofs proofs.SegmentProofs proofs.SegmentLayoutProofs.
 Import ListNotations.
 Open Scope Z_scope.
 
@@ -56,37 +56,32 @@ Theorem C06_crc32_is_spec : forall p, bytes_ok p -> Z.of_N (checksum_ieee p) = s
 Proof. exact crc32_model_is_spec. Qed.
 Print Assumptions C06_crc32_is_spec.
 
-(* FULL STATEMENT of the layout clause (kept visible; what is proved below differs from it in one place only):
-   the emitted bytes are [spec_segment ...], whose CRC-24 field is the textbook bit-at-a-time CRC-24 [spec_crc24] of
-   the header bytes. *)
-Definition C06_layout_full_statement : Prop :=
+(* the checksum the code computes over a header word (xor a byte into bits 16..23 of a uint32, 8 shift steps per byte) is the
+   specification's textbook bit-at-a-time CRC-24 of the little-endian header bytes, for every word and every length *)
+Theorem C06_crc24_is_spec : forall hd n, Z.of_N (checksum_koopman hd n) = spec_crc24 (put_le n hd).
+Proof. exact checksum_koopman_is_spec. Qed.
+Print Assumptions C06_crc24_is_spec.
+
+(* LAYOUT, nil compressor (section 2.1): the emitted bytes are exactly: the little-endian 3-byte word  len + 2^17*flag,
+   the textbook CRC-24 of those 3 bytes little-endian, the payload, the seeded CRC-32 of the payload little-endian *)
+Theorem C06_layout :
   forall sc p, bytes_ok p -> Z.of_nat (length p) <= 131071 ->
   encode_segment None sc p = Ok (spec_uncompressed_segment sc p).
-
-(* PROVED (partial): the same layout - little-endian 3-byte header word  len + 2^17*flag  written by div/mod, CRC-24
-   field little-endian after it, the payload, the specification's seeded CRC-32 little-endian - with the CRC-24 field
-   given by [model_crc24], the code's register machine applied to the header bytes and the specification's
-   init/polynomial (C06_parameters_agree), instead of the textbook form [spec_crc24].
-   MISSING: the lemma  model_crc24 h = spec_crc24 h  (xor-a-byte-then-8-shifts = one-bit-at-a-time division).  The two
-   forms are compared on the implementation side on every run (tools/harness/cmd/seg refCrc24 is the textbook form). *)
-Theorem C06_layout_partial :
-  forall sc p, bytes_ok p -> Z.of_nat (length p) <= 131071 ->
-  encode_segment None sc p = Ok (spec_segment_with model_crc24 false sc (zlen p) 0 p).
 Proof. exact layout_none. Qed.
-Print Assumptions C06_layout_partial.
+Print Assumptions C06_layout.
 
-(* with a compressor: section 2.2 layout (5-byte word  clen + 2^17*ulen + 2^34*flag, compressed bytes, CRC-32 of the
-   compressed bytes) when compression pays, else the fallback of section 2.3.2 in Cassandra's reading: uncompressed-length
+(* LAYOUT with a compressor: section 2.2 (5-byte word  clen + 2^17*ulen + 2^34*flag, CRC-24, the compressed bytes, CRC-32 of
+   the compressed bytes) when compression pays, else the fallback of section 2.3.2 in Cassandra's reading: uncompressed-length
    field 0, compressed-length field = payload length, the payload itself and its CRC-32 *)
-Theorem C06_layout_with_compressor_partial :
+Theorem C06_layout_with_compressor :
   forall k sc p cp, bytes_ok p -> Z.of_nat (length p) <= 131071 ->
   cmp k p = Ok cp -> bytes_ok cp -> Z.of_nat (length cp) < 2147483648 ->
   encode_segment (Some k) sc p =
   Ok (if Z.of_nat (length cp) <=? Z.of_nat (length p)
-      then spec_segment_with model_crc24 true sc (zlen p) (zlen cp) cp
-      else spec_segment_with model_crc24 true sc 0 (zlen p) p).
+      then spec_compressed_segment sc p cp
+      else spec_fallback_segment sc p).
 Proof. exact layout_comp. Qed.
-Print Assumptions C06_layout_with_compressor_partial.
+Print Assumptions C06_layout_with_compressor.
 
 (* the decoder accepts both readings of section 2.3.2 (uncompressed-length field 0, as emitted; compressed-length field 0,
    as the prose says) *)
